@@ -20,7 +20,7 @@ files = sorted(set(re.findall(r'^\+\+\+ b/(\S+)', open(os.path.join(src, 'patch.
 caught = [r['check'] for r in res['ran'] if r['exit'] == 1 and r['violations'] > 0]
 meta = dict(
     id='%s-%s' % (pid, keep_as), property=pid, files=files,
-    author='independent sub-agent given only the property text and a scratch worktree (/tmp/wt/%s); nothing from /verif' % pid,
+    author='independent sub-agent given only the property text and a scratch worktree (/tmp/wt/%s%s); nothing from /verif' % (pid, os.environ.get('SEED_WT_SUFFIX', '')),
     what_it_needs_to_manifest=(re.search(r'(?is)(needs? to manifest|when it (shows|manifests)|what (is|it) need[s]?[^\n]*)[:\s]*(.{40,600}?)(\n\n|\n#)', notes) or [None]*5)[4] or 'see NOTES.md',
     confirmed=dict(how='tools/seed_try.py: patch applied to a scratch copy of /repo HEAD under /tmp (removed afterwards); existing suite; demo with and without the patch',
                    suite_with_patch=res['suite_with_patch'], demo_exit_with_patch=res['demo_with_patch_exit'], demo_exit_without_patch=res['demo_without_patch_exit']),
